@@ -183,16 +183,17 @@ fn check(case: &Case, ev: &mut CaseEv) -> CheckResult {
 
     // validate
     let (vl, va) = catch(|| net.validate(&xr, &tr, case.tol)).map_err(|p| Fail::new(format!("validate panicked on {} samples: {}", case.n, p)))?;
+    // the rule applied by the harness to the first `m` samples: (loss sum, |loss| sum, accuracy interval, both outcomes present)
+    let expected = |m: usize| -> Option<(f64, f64, f64, f64, (bool, bool))> {
     let mut loss_sum = 0.0f64;
     let mut loss_mag = 0.0f64;
     let mut acc_lo = 0.0f64;
     let mut acc_hi = 0.0f64;
     let mut mixed = (false, false);
-    for i in 0..case.n {
+    for i in 0..m {
         let (l, _) = objf.loss(&preds[i], &ts[i]);
         if !l.is_finite() {
-            ev.discard = Some("non-finite sample loss");
-            return Ok(());
+            return None;
         }
         loss_sum += l as f64;
         loss_mag += (l as f64).abs();
@@ -227,6 +228,12 @@ fn check(case: &Case, ev: &mut CaseEv) -> CheckResult {
             if hi < n_out as f64 { mixed.1 = true }
         }
     }
+    Some((loss_sum, loss_mag, acc_lo, acc_hi, mixed))
+    };
+    let Some((loss_sum, loss_mag, acc_lo, acc_hi, mixed)) = expected(case.n) else {
+        ev.discard = Some("non-finite sample loss");
+        return Ok(());
+    };
     let nf = case.n as f64;
     let mean = loss_sum / nf;
     // sequential single-precision summation of N losses: error <= (N - 1) eps sum|l|
@@ -240,6 +247,20 @@ fn check(case: &Case, ev: &mut CaseEv) -> CheckResult {
         "validate accuracy {:e} over {} samples (tolerance {:e}, {} output): by the stated rule it lies in [{:e}, {:e}]",
         va, case.n, case.tol, if softmax_now { "soft-max" } else { "non-soft-max" }, acc_lo / nf, acc_hi / nf
     );
+    // a second call on the same network object with fewer samples (nothing may be left over from the first call)
+    if case.n >= 2 {
+        let m = 1 + (case.dseed as usize >> 11) % (case.n - 1);
+        let (xm, tm): (Vec<&Tensor>, Vec<&Tensor>) = (xr[..m].to_vec(), tr[..m].to_vec());
+        let (vl2, va2) = catch(|| net.validate(&xm, &tm, case.tol)).map_err(|p| Fail::new(format!("second validate call ({} of {} samples) panicked: {}", m, case.n, p)))?;
+        if let Some((ls, lm, alo, ahi, _)) = expected(m) {
+            let mf = m as f64;
+            let tol2 = 2.0 * (mf + 2.0) * crate::fcmp::EPS32 * (lm / mf) + 1e-30;
+            ensure!(((vl2 as f64) - ls / mf).abs() <= tol2, "validate on {} samples, called after validate on {} samples of the same network, returned loss {:e}; the mean per-sample objective of predict over those {} samples is {:e}", m, case.n, vl2, m, ls / mf);
+            let slack2 = 2e-6 * mf.sqrt().max(1.0) + 1e-7;
+            ensure!(va2 as f64 >= alo / mf - slack2 && va2 as f64 <= ahi / mf + slack2, "validate on {} samples, called after validate on {} samples of the same network, returned accuracy {:e}; by the stated rule it lies in [{:e}, {:e}]", m, case.n, va2, alo / mf, ahi / mf);
+            ev.class("second validate call with fewer samples");
+        }
+    }
     ev.nontrivial = case.n > 64 && case.n % 64 != 0 && mixed.0 && mixed.1;
     ev.set_sig(&(spec, case.obj, case.tol.to_bits(), case.n));
     ev.units = case.n as u64;
@@ -262,7 +283,7 @@ impl Prop for C12 {
         Some(3)
     }
     fn rule(&self) -> String {
-        "tape-decoded network (1-2 generated layers of any kind incl. feedback blocks + a final dense layer (1-5 outputs, one case in 25: 17-130) with soft-max or another activation; in one case of four the output activation is changed afterwards with set_activation; in one case of three up to three skip connections, chains included, are added), objective of 7, tolerance in {0, 1e-6, 1e-3, 0.1, 1, 1e30}, N in {1, 2, 63, 64, 65, 127, 128, 129, 200} or random 1..300; targets derived from the predictions so that components lie exactly on / at the tolerance / inside / outside it and one-hot or soft (peak often below 0.5) targets agree or disagree with the arg-max; inputs independent O(1), or (1/8) a fine sweep with consecutive inputs a few ulp apart, or (1/8) of magnitude 1e-6. Oracle from public pieces: loss = mean of objective(predict(x), t) (order-free tolerance), accuracy interval by the stated rule (components at exactly the tolerance and arg-max ties may count either way), predict_batch[i] == predict(x_i) bitwise in order, predict == last activation of forward. Non-trivial: N > 64, N mod 64 != 0 and both scoring outcomes present. Distinct = (architecture, objective, tolerance, N).".into()
+        "tape-decoded network (1-2 generated layers of any kind incl. feedback blocks + a final dense layer (1-5 outputs, one case in 25: 17-130) with soft-max or another activation; in one case of four the output activation is changed afterwards with set_activation; in one case of three up to three skip connections, chains included, are added), objective of 7, tolerance in {0, 1e-6, 1e-3, 0.1, 1, 1e30}, N in {1, 2, 63, 64, 65, 127, 128, 129, 200} or random 1..300; targets derived from the predictions so that components lie exactly on / at the tolerance / inside / outside it and one-hot or soft (peak often below 0.5) targets agree or disagree with the arg-max; inputs independent O(1), or (1/8) a fine sweep with consecutive inputs a few ulp apart, or (1/8) of magnitude 1e-6. Oracle from public pieces: loss = mean of objective(predict(x), t) (order-free tolerance), accuracy interval by the stated rule (components at exactly the tolerance and arg-max ties may count either way), predict_batch[i] == predict(x_i) bitwise in order, predict == last activation of forward; a second validate call on a prefix of the data (fewer samples, same network object) is held to the same rule. Non-trivial: N > 64, N mod 64 != 0 and both scoring outcomes present. Distinct = (architecture, objective, tolerance, N).".into()
     }
     fn run_case(&self, tape: &[u32], ev: &mut CaseEv) -> CheckResult {
         check(&decode(tape), ev)
